@@ -351,6 +351,15 @@ func (w *Worker) fmtArg(v Val) string {
 			}
 			return "<sym>"
 		}
+		if sl, ok := x.V.(Slice); ok {
+			if b, ok := w.concreteBytes(sl); ok {
+				return string(b)
+			}
+			return "<sym>"
+		}
+		if w.prog.MethodSets.MethodSet(x.T).Lookup(nil, "Error") == nil {
+			return "<" + x.T.String() + ">"
+		}
 		if m := w.prog.LookupMethod(x.T, nil, "Error"); m != nil {
 			r := w.callFunction(m, []Val{x.V}, nil)
 			if s, ok := r.(Str); ok {
